@@ -72,6 +72,16 @@ def history_configs(tier):
             script.append(["call", "produce", [["t", 0, ["x"]]], {"foe": False}])
             out.append({"cluster": CLUSTER, "discovery": False, "timeout_ms": 2000, "warm": [["t", "u"], []],
                         "warm_connect": True, "script": script, "menu": {}, "watch_topics": ["t", "u", "w"]})
+    # the cluster loses all its topics, then a broker: a full refresh that lists brokers but no topic at all
+    for first in ("t", "u"):
+        other = "u" if first == "t" else "t"
+        for victim in (1, 2, 3):
+            script = [["cluster", "remove_topic", first], ["call", "metadata", []],
+                      ["cluster", "remove_topic", other], ["cluster", "remove_broker", victim],
+                      ["call", "metadata", []], ["call", "metadata", []]]
+            out.append({"cluster": CLUSTER, "discovery": False, "timeout_ms": 2000, "warm": [["t", "u"], []],
+                        "warm_connect": True, "script": script, "menu": {}, "watch_topics": ["t", "u", "w"],
+                        "expect_failure": True})
     return out
 
 
